@@ -295,6 +295,8 @@ class World:
                     .replace('GreaterThan', 'Ge'), self.ser(x.args[0]), self.ser(x.args[1])]
         if isinstance(x, sympy.Not):
             return ['not', self.ser(x.args[0])]
+        if isinstance(x, sympy.logic.boolalg.BooleanFunction):
+            raise ValueError('boolean function %s outside the generated fragment' % type(x).__name__)
         if x.is_Function:
             name = x.func.__name__
             if name == 'Abs':
@@ -485,10 +487,11 @@ class Phys:
             return mp.power(b, x)
         if h == 'abs':
             return abs(self.plain(a[1], rho))
-        if h == 'floor':
-            return mp.floor(self.plain(a[1], rho))
-        if h == 'ceil':
-            return mp.ceil(self.plain(a[1], rho))
+        if h in ('floor', 'ceil'):
+            x = self.plain(a[1], rho)
+            if abs(x - mp.nint(x)) < 1e-6 * max(1, abs(x)):
+                raise Unsupported('near discontinuity')
+            return mp.floor(x) if h == 'floor' else mp.ceil(x)
         if h == 'fn1':
             v = self.plain(a[2], rho)
             f = {'exp': mp.exp, 'log': mp.log, 'sin': mp.sin, 'cos': mp.cos, 'tan': mp.tan, 'tanh': mp.tanh,
